@@ -192,7 +192,10 @@ def generate(rng, config):
             "nxb": rng.choice([None, None, None, "int", "str"]),
             "lists": [[rng.choice([1, -1]) * rng.randint(1, 5)
                        for _ in range(rng.randint(0, 4))],
-                      [rng.randint(0, 1) for _ in range(rng.randint(0, 6))],
+                      # charges: "any non-boolean value is interpreted as
+                      # boolean", "excessive values will be ignored"
+                      [rng.choice([0, 1, 0, 1, 0, 1, 2, True, False])
+                       for _ in range(rng.randint(0, 7))],
                       sorted(rng.sample(range(0, 5), rng.randint(0, 3)),
                              reverse=rng.random() < 0.7)],
             "ops": [_gen_op(rng)
@@ -458,6 +461,23 @@ def execute(case, ctx):
                                     (fam, exc_signature(r[1], REPO)),
                                     "step %d %r: %r" % (si, op, r[1]))
             else:
+                if fam == "tseitin":
+                    # the header tells how the formula was produced: the
+                    # parity of the charges the clauses were built with
+                    # (cast to boolean, one per vertex, the rest ignored)
+                    nv = G.number_of_nodes() if hasattr(G, "number_of_nodes") \
+                        else G.number_of_vertices()
+                    eff = [bool(c) for c in lst][:nv]
+                    descr = r[1].header.get("description", "")
+                    want = "odd" if sum(eff) % 2 else "even"
+                    other = "even" if want == "odd" else "odd"
+                    if ("%s charge" % other) in descr and \
+                            ("%s charge" % want) not in descr:
+                        raise Violation(
+                            "C19/header-tells-otherwise/tseitin",
+                            "step %d: charges %r on %d vertices are %s, the "
+                            "description says %r" % (si, lst, nv, want, descr))
+                    ctx.probe("tseitin: parity in the description checked")
                 j = pool.add("formula", r[1], "%s@%d" % (fam, si))
                 # variable groups keep a reference to their graph (this
                 # sharing is documented): the formula follows its graphs
